@@ -276,6 +276,9 @@ Proof.
   - (* ECompact *) inversion St; subst.
     apply (inv_store_ext w _ [[]] I); [reflexivity|].
     cbn [commit_other s_log]. apply Forall_app. split; [assumption|]. constructor; constructor.
+  - (* ECompactAt *)
+    destruct ((s_compact (w_store w) <? r) && (r <=? s_rev (w_store w)))%nat; inversion St; subst; [|exact I].
+    apply (inv_store_ext w _ [] I); cbn [s_log]; [now rewrite app_nil_r|exact G].
   - (* ELoadOk *)
     assert (Inv (set_router w (mkRouter (project rk (kv_now (w_store w))) (s_rev (w_store w)) O PcLoaded))) as R.
     { split; [exact G|]. cbn [w_router w_store set_router r_pc r_routes r_rev r_seen]. intros _.
